@@ -819,6 +819,32 @@ func (c *fileCtx) goEdit(g *ast.GoStmt) {
 	stats.Gos++
 }
 
+// wgGoEdit makes the goroutine started by `wg.Go(func() { ... })` (sync.WaitGroup.Go)
+// a scheduler task, like the one of a go statement: the runtime starts it inside the sync
+// package, where no go statement of the instrumented code sees it.
+func (c *fileCtx) wgGoEdit(st *ast.ExprStmt) {
+	call, ok := st.X.(*ast.CallExpr)
+	if !ok || len(call.Args) != 1 {
+		return
+	}
+	sel, ok := call.Fun.(*ast.SelectorExpr)
+	if !ok || sel.Sel.Name != "Go" {
+		return
+	}
+	if recv, name, _, ok := syncMethod(c.pkg.TypesInfo, sel); !ok || recv != "WaitGroup" || name != "Go" {
+		return
+	}
+	fl, ok := call.Args[0].(*ast.FuncLit)
+	if !ok {
+		warn("WaitGroup.Go with a function value at %s not wrapped", c.pkg.Fset.Position(st.Pos()))
+		return
+	}
+	l := c.label(st.Pos(), "go")
+	c.insert(st.Pos(), fmt.Sprintf("__simtok%d := simhook.Spawn(%d);", l, l))
+	c.insert(fl.Body.Lbrace+1, fmt.Sprintf("simhook.Start(__simtok%d); defer simhook.Exit(__simtok%d);", l, l))
+	stats.Gos++
+}
+
 func identOf(e ast.Expr) *ast.Ident {
 	id, _ := e.(*ast.Ident)
 	return id
@@ -913,6 +939,7 @@ func (c *fileCtx) processFile() {
 			if c.lockEdit(x) {
 				return
 			}
+			c.wgGoEdit(x)
 		}
 		// blocking operations in simple statements
 		switch x := st.(type) {
